@@ -24,6 +24,8 @@ pub fn metrics_units(c: char, font: u32) -> Option<(i32, i32, i32)> {
         (1, 'b') => (2, 5, 0),
         (1, 'f') => (8, 3, 4),
         (2, 'b') => (4, 2, 5),
+        // a glyph of width 0 that is taller and deeper than anything else in the menus
+        (0, '|') => (0, 16, 15),
         // non-ASCII glyphs: 2-, 3- and 4-byte characters
         (0, 'é') => (4, 6, 0),
         (1, 'é') => (5, 5, 1),
